@@ -86,3 +86,54 @@ Proof.
     rewrite (timeshift_const_integer_shift h data 0 n Hh Hn'). unfold clampZ. simpl T in *.
     replace (Z.to_nat (Z.max 0 (Z.min (Z.of_nat (length data) - 1) (Z.of_nat n + 0)))) with n by lia. reflexivity.
 Qed.
+
+Lemma fold_add_acc_R (f : nat -> R) l : forall a, fold_left (fun a i => a + f i) l a = a + fold_left (fun a i => a + f i) l 0.
+Proof. induction l as [|x l IH]; intros a; cbn [fold_left]; [lra|]. rewrite IH, (IH (0 + f x)). lra. Qed.
+
+(* the time-varying path agrees with the constant-shift path wherever the stencil is interior (any order) *)
+Theorem timeshift_paths_agree_interior (h : Z) (data shifts : list R) (n : nat) :
+  (1 <= h)%Z -> (n < length data)%nat ->
+  let s := nth n shifts 0 in
+  (0 <= Z.of_nat n + Zfloor s - (h - 1))%Z -> (Z.of_nat n + Zfloor s + h <= Z.of_nat (length data) - 1)%Z ->
+  nth n (timeshift_var RA data shifts h) 0 = nth n (timeshift_const RA data s h) 0.
+Proof.
+  intros Hh Hn s Hlo Hhi. unfold timeshift_var, timeshift_const. cbn [floorZ sub add mul ofZ zero RA]. simpl T in *.
+  rewrite !nth_map_seq by exact Hn. fold s.
+  apply fold_left_ext_in_R. intros t k Hk. apply in_seq in Hk. f_equal. f_equal.
+  assert (E1 : clampZ (- (h + 1)) (Z.of_nat (length data) + (h - 1)) (Z.of_nat n + Zfloor s) = (Z.of_nat n + Zfloor s)%Z) by (unfold clampZ; lia).
+  assert (E2 : clampZ 0 (Z.of_nat (length data) - 1) (Z.of_nat n + Zfloor s - (h - 1) + Z.of_nat k) = (Z.of_nat n + Zfloor s - (h - 1) + Z.of_nat k)%Z)
+    by (unfold clampZ; lia).
+  rewrite E1, E2. unfold data0. cbn [zero RA]. simpl T in *.
+  destruct (Z.leb_spec 0 (Z.of_nat n + Zfloor s - (h - 1) + Z.of_nat k)); [|lia].
+  destruct (Z.ltb_spec (Z.of_nat n + Zfloor s - (h - 1) + Z.of_nat k) (Z.of_nat (length data))); [|lia]. reflexivity.
+Qed.
+Corollary timeshift_var_reproduces_polynomials (h : Z) (q : rpoly) (data shifts : list R) (n : nat) :
+  (1 <= h <= 56)%Z -> (length q <= Z.to_nat (2 * h))%nat ->
+  (forall i, (i < length data)%nat -> nth i data 0 = reval q (IZR (Z.of_nat i))) ->
+  (n < length data)%nat ->
+  let s := nth n shifts 0 in
+  (0 <= Z.of_nat n + Zfloor s - (h - 1))%Z -> (Z.of_nat n + Zfloor s + h <= Z.of_nat (length data) - 1)%Z ->
+  nth n (timeshift_var RA data shifts h) 0 = reval q (IZR (Z.of_nat n) + s).
+Proof.
+  intros Hh Hq Hdata Hn s Hlo Hhi. unfold s in *. rewrite timeshift_paths_agree_interior by (try assumption; lia).
+  apply timeshift_const_reproduces_polynomials; assumption.
+Qed.
+
+(* a shift that moves every stencil beyond an end of the record returns the held end value (taps sum to one) *)
+Theorem timeshift_const_beyond_start (h : Z) (data : list R) (s : R) (n : nat) :
+  (1 <= h <= 56)%Z -> (n < length data)%nat -> (Z.of_nat n + Zfloor s + h <= 0)%Z ->
+  nth n (timeshift_const RA data s h) 0 = nth 0 data 0.
+Proof.
+  intros Hh Hn Hb. unfold timeshift_const. cbn [floorZ sub add mul ofZ zero RA]. simpl T in *.
+  set (si := Zfloor s). set (d := s - IZR si).
+  assert (Hd : 0 <= d < 1) by (unfold d, si; pose proof (Zfloor_lb s); pose proof (Zfloor_ub s); lra).
+  rewrite nth_map_seq by exact Hn.
+  rewrite fold_left_ext_in_R with (g := fun t k => t + tap RA h d (Z.of_nat k) * nth 0 data 0).
+  - pose proof (taps_sum_to_one h d Hh Hd) as H1.
+    assert (G : forall l t, fold_left (fun t k => t + tap RA h d (Z.of_nat k) * nth 0 data 0) l t
+                = t + (fold_left (fun t k => t + tap RA h d (Z.of_nat k)) l 0) * nth 0 data 0).
+    { induction l as [|k l IH]; intros t; cbn [fold_left]; [ring|]. rewrite IH. rewrite (fold_add_acc_R (fun k => tap RA h d (Z.of_nat k)) l (0 + tap RA h d (Z.of_nat k))). ring. }
+    rewrite G, H1. ring.
+  - intros t k Hk. apply in_seq in Hk. f_equal. unfold taps. rewrite nth_map_seq by lia. f_equal.
+    replace (clampZ 0 (Z.of_nat (length data) - 1) (Z.of_nat n + si - (h - 1) + Z.of_nat k)) with 0%Z by (unfold clampZ; lia). reflexivity.
+Qed.
